@@ -185,6 +185,9 @@ func corpusEntry(name string) (*corpusInfo, error) {
 	return e, nil
 }
 
+// CorpusFiles lists corpus files of a format (exported for the gxz checks).
+func CorpusFiles(format string) []string { return corpusFiles(format) }
+
 // corpusFiles lists corpus files of a format.
 func corpusFiles(format string) []string {
 	corpusOnce.Do(loadCorpus)
